@@ -8,14 +8,14 @@ using namespace vf;
 static long countCases(Ctx& c)
 {
     if (c.prop == "C12") return fld::count(c) + c13::detCount() + (c.thorough() ? 200000 : 8000);
-    if (c.prop == "C11") return fld::count(c);
+    if (c.prop == "C11") return fld::count(c) + c13::detCount() + (c.thorough() ? 200000 : 8000);
     if (c.prop == "C13") return c13::count(c);
     if (c.prop == "C14") return c14::count(c);
     return -1;
 }
 static void runCase(Ctx& c, long idx)
 {
-    if (c.prop == "C12" && idx >= fld::count(c))
+    if ((c.prop == "C12" || c.prop == "C11") && idx >= fld::count(c))
     {
         // layout of the variable-length parts written by setData (same executions as C13, judged against the wire model)
         long j = idx - fld::count(c);
